@@ -13,7 +13,7 @@ from vf.core import Result, lib
 ID = "C18"
 TITLE = "Pressure-history fit uses the library's forward model and honours its limits"
 LEVEL = "exploration"
-BUDGET = {"quick": 960, "thorough": 16000}
+BUDGET = {"quick": 960, "thorough": 100000}
 SHRINK = {"quick": False, "thorough": True}
 TIME_LIMIT = {"quick": 150, "thorough": 3300}
 RULE = (
@@ -205,6 +205,40 @@ def check_case(case) -> Result:
         if res.violations:
             break
     res.counts["objective_evaluations_observed"] = len(calls)
+
+    def declared(par, tag):
+        """The limits declared on the returned parameters are the documented ones."""
+        for name in ("tau", "M", "p_initial"):
+            lo, hi = lim[name]
+            q = par[name]
+            if not (abs(q.min - lo) <= 1e-9 * max(abs(lo), 1.0) and abs(q.max - hi) <= 1e-9 * max(abs(hi), 1.0)):
+                res.bad("C18/parameters-within-limits", f"{tag}: declared limits of {name} are [{q.min!r}, {q.max!r}], expected [{lo!r}, {hi!r}]")
+                return
+
+    declared(out.params, "first fit")
+    if case.get("continue_fit", True) and not res.violations:
+        # documented usage: "You can pass in results from previous fit" - the same data, so the same limits
+        calls2 = []
+
+        def spy2(params, *a):
+            calls2.append((params["tau"].value, params["M"].value, params["p_initial"].value))
+            return orig(params, *a)
+
+        FP._obj_function = spy2
+        try:
+            out2 = lib("fit_production_pressure(params=previous)", fit_production_pressure, prod.copy(), table, guess, filter_window_size=case["window"], pressure_imax=imax, inplace_max=inplace_max, filter_zero_prod_days=case["filter"], n_iter=max(2, case["n_iter"] // 2), params=out.params)
+        finally:
+            FP._obj_function = orig
+        declared(out2.params, "continued fit (params = previous result)")
+        for i, (t_, m_, p_) in enumerate(calls2 + [(out2.params["tau"].value, out2.params["M"].value, out2.params["p_initial"].value)]):
+            for name, v in (("tau", t_), ("M", m_), ("p_initial", p_)):
+                lo, hi = lim[name]
+                if not (lo * (1 - 1e-12) <= v <= hi * (1 + 1e-12)):
+                    res.bad("C18/parameters-within-limits", f"continued fit, evaluation {i}: {name}={v!r} outside [{lo!r}, {hi!r}]")
+                    break
+            if res.violations:
+                break
+        res.counts["continued_fits"] = 1
     if out.ndata != nk:
         res.bad("C18/rows-excluded-when-filtering", f"fit used {out.ndata} rows, expected {nk} (filter={case['filter']}, {n} rows, {len(case['zero_days'])} zero-rate, {len(case['nan_days']) if case['filter'] else 0} missing pressure)")
     # the fit's own residual is the objective at the fitted parameters on the filtered, re-indexed, smoothed data
